@@ -1,4 +1,5 @@
 import GSProofs.Lemmas.MsgQueueNotes5
+import GSProofs.Lemmas.MsgQueueLive6
 /-!
 # C16 — Every queued message is reported sent or failed exactly once
 
@@ -18,11 +19,10 @@ in flight, `queued_only_in_flight`), or complete: `[Queued, Sent, close]`, `[Que
 `[Error, close]` (failed by the shutdown drain before it was ever handed to the network).  Never two
 outcomes, never an outcome after the close, never a second close.
 
-**(S2) eventually** — stated below (`eventually`, as a comment), NOT proved in Lean.  It is checked
-on the real code by the watchdog oracle (every script ends with a fair epilogue: every waiting
-caller continues, every network call returns, until nothing moves; then every attachment must be
-complete).  It is false for transactions built after the queue goroutine's final drain (known finding
-`dead-queue-unreported`; witness `dead_queue_unreported`).
+**(S2) eventually** — proved (`eventually`) with the leads-to rule of `GS/Temporal.lean`, for every
+message pending before the queue goroutine's final exit.  It is false for transactions built after
+the final drain (known finding `dead-queue-unreported`; witness `dead_queue_unreported`).  On the
+real code the watchdog oracle checks the same after a fair epilogue of every script.
 -/
 namespace GS.C16
 open GS.MQ GS.Alloc
@@ -113,23 +113,101 @@ theorem complete_when_idle {pick : Pick} {peer mr mt mp : Nat} {s : MQ.State}
     | sending m i => rw [hp] at hpc; cases hpc
     | resetting m i => rw [hp] at hpc; cases hpc
 
-/-
-**(S2) eventually — statement (not proved).**  With `S : Sys MQ.State Act` whose `step` is `MQ.step`
-restricted to effective actions, fair actions `run _` (the queue goroutine is scheduled) and `ack _`
-(the network answers every ConnectTo / SendMsg / Reset), for every subscriber `u` attached to a
-non-empty builder with topic `t` that is queued while the queue goroutine has not taken its final
-drain:
+/-! ## (S2) eventually
 
-  theorem eventually (hex : Exec S σ) (hwf : WF1 S fair σ) :
-      LeadsTo σ (fun s => Attached s u t ∧ s.pc ≠ .exiting ∧ s.pc ≠ .exited)
-                (fun s => CompleteOrScrubbed s u t)
+The fair system `LSys pick` (GSProofs/Lemmas/MsgQueueLive3.lean): the steps are those of `MQ.step`, with
+`run` (the queue goroutine's select loop) enabled only when it can do something (`pc = idle` and a work
+signal or `done`), and `ack` (the network / allocator answering the call the goroutine is blocked in)
+enabled only when it is blocked.  Fairness (`WFAll`, weak fairness of the set {run, ack}): if the queue
+goroutine or the network can always move, one of them eventually does — nothing is assumed about
+callers, `Shutdown`, other peers, or about the *result* of a network call (it may fail every time).
 
-where `CompleteOrScrubbed` = `seqOf u t s.log` is one of the three complete sequences, or the request
-through which `u` was attached was scrubbed from builder `t` after `u` received an `Error` for it.
-Variant: (number of queued builders up to `t`) × (3·maxRetries + 4) + (steps left for the message in
-flight: connect, then per attempt send / reset / reconnect).  Needs the additional invariant
-"a non-empty queued builder ∧ pc = idle → token" (`builders ≠ [] → signal ∨ sending`).
--/
+`Pend t s`: message `t` is queued with content or in flight.  `Running s`: the goroutine has not begun
+its final exit.  Variant: (queued builders with topic ≤ t) · (3·maxRetries + 3) + (steps left for the
+message in flight).  Key invariant `TI` (content queued ⇒ the work signal is set; Go:
+`builders ≠ [] → signal ∨ sending`), proved for every reachable state (`step_tk`). -/
+
+open GS.Temporal in
+/-- every state of an execution from a fresh queue satisfies the notification invariant and the
+    signal invariant -/
+theorem exec_inv {pick : Pick} {peer mr mt mp : Nat} {σ : Nat → MQ.State} (h0 : σ 0 = init peer mr mt mp)
+    (hex : Exec (LSys pick) σ) : ∀ i, J (σ i) ∧ TK (σ i) := by
+  intro i
+  induction i with
+  | zero => rw [h0]; exact ⟨init_J peer mr mt mp, init_tk peer mr mt mp⟩
+  | succ i ih =>
+    rcases hex i with h | ⟨a, h⟩
+    · rw [h]; exact ih
+    · have hs : σ (i + 1) = MQ.step pick (σ i) a := by
+        cases a with
+        | run pw =>
+          have h' : (if runEnabled (σ i) then some ((σ i).run pick pw) else none) = some (σ (i + 1)) := h
+          split at h'
+          · exact (Option.some.inj h').symm
+          · exact absurd h' (by simp)
+        | ack ok =>
+          have h' : (if ackEnabled (σ i) then some ((σ i).ack pick ok) else none) = some (σ (i + 1)) := h
+          split at h'
+          · exact (Option.some.inj h').symm
+          · exact absurd h' (by simp)
+        | build tx => have h' : some (MQ.step pick (σ i) (.build tx)) = some (σ (i + 1)) := h; exact (Option.some.inj h').symm
+        | wake w => have h' : some (MQ.step pick (σ i) (.wake w)) = some (σ (i + 1)) := h; exact (Option.some.inj h').symm
+        | shutdown => have h' : some (MQ.step pick (σ i) .shutdown) = some (σ (i + 1)) := h; exact (Option.some.inj h').symm
+        | env op => have h' : some (MQ.step pick (σ i) (.env op)) = some (σ (i + 1)) := h; exact (Option.some.inj h').symm
+      rw [hs]; exact ⟨step_J pick ih.1 a, step_tk pick ih.2 a⟩
+
+open GS.Temporal in
+/-- **(S2) eventually**, partial = for messages pending while the queue goroutine has not begun its
+    final exit (the hypothesis excluded by `dead_queue_unreported`).  On every weakly fair execution
+    from a fresh queue — any transactions, any network results, Shutdown at any time — every message
+    that is queued with content or in flight is eventually no longer pending, and then every
+    subscriber's notification sequence for it is complete (`[Q,S,close]`, `[Q,E,close]`, `[E,close]`)
+    or empty (the subscriber's request was scrubbed from it after an Error for that request, or it was
+    never attached). -/
+theorem eventually {pick : Pick} {peer mr mt mp : Nat} {σ : Nat → MQ.State} (h0 : σ 0 = init peer mr mt mp)
+    (hex : Exec (LSys pick) σ) (hwf : WFAll (LSys pick) fairAct σ) (t : Nat) :
+    LeadsTo σ (fun s => Running s ∧ Pend t s) (fun s => ¬ Pend t s ∧ ∀ u, Done (seqOf u t s.log)) := by
+  intro i ⟨hr, hp⟩
+  obtain ⟨hj, htk⟩ := exec_inv h0 hex i
+  have hn : NInv (σ i) := by
+    rcases hj with hf | hn
+    · exact absurd hf.pc hr.2
+    · exact hn
+  have hP : LiveP t (σ i) := ⟨hn, htk.1, htk.2, hr, hp⟩
+  obtain ⟨j, hij, hq⟩ := leadsTo_of_variant (live_rule pick t) hex hwf i hP
+  refine ⟨j, hij, hq, ?_⟩
+  intro u
+  -- not pending: the sequence cannot be the in-flight one
+  obtain ⟨hj', _⟩ := exec_inv h0 hex j
+  rcases hj' with hf | hn'
+  · exact hf.done t u
+  · unfold NInv at hn'
+    have mid : ∀ {m : InFlight} {U : List Sub} {b : Bool}, (σ j).pc.inflight = some m → Mid (σ j) m U [Kind.queued] b →
+        Done (seqOf u t (σ j).log) := by
+      intro m U b hm hmid
+      have hne : t ≠ (m.topic : Nat) := by
+        intro e; apply hq; exact Or.inr ⟨m, hm, e.symm⟩
+      exact hmid.done t u hne
+    cases hpc : (σ j).pc with
+    | idle => rw [hpc] at hn'; exact hn'.done t u
+    | exiting => rw [hpc] at hn'; exact hn'.done t u
+    | exited => rw [hpc] at hn'; exact absurd hn' (fun x => x)
+    | opening m r =>
+      rw [hpc] at hn'
+      cases r with
+      | none => obtain ⟨U, hm⟩ := hn'; exact mid (by rw [hpc]; rfl) hm
+      | some k => obtain ⟨U, hm⟩ := hn'; exact mid (by rw [hpc]; rfl) hm
+    | sending m k => rw [hpc] at hn'; obtain ⟨U, hm⟩ := hn'; exact mid (by rw [hpc]; rfl) hm
+    | resetting m k => rw [hpc] at hn'; obtain ⟨U, hm⟩ := hn'; exact mid (by rw [hpc]; rfl) hm
+
+/-- non-vacuity of `eventually`: a reachable state with message 1 queued with content behind message 0
+    in flight -/
+example : ∃ s, Reachable pickMin 0 1 (2^30) (2^30) s ∧ Running s ∧ Pend 1 s ∧ Pend 0 s :=
+  ⟨runActs pickMin (init 0 1 (2^30) (2^30))
+      [.build { who := .response, req := 0, sub := 0, items := [.block 1 1000 true] }, .run true,
+       .build { who := .response, req := 1, sub := 1, items := [.block 2 600000 true] }],
+    ⟨_, rfl⟩, ⟨by decide, by decide⟩,
+    Or.inl ⟨_, List.mem_cons_self, by decide, by decide⟩, Or.inr ⟨_, rfl, by decide⟩⟩
 
 /-- **(S2) is false after the final drain** (known finding `dead-queue-unreported`): a transaction
     built while the queue goroutine is already in its deferred exit is queued with its subscriber
